@@ -102,7 +102,7 @@ def gaussian_syn_likelihood(ssx, ssy, shrinkage=None, penalty=None, whitening=No
     Estimate of the logpdf for the approximate posterior at x.
 
     """
-    ssy = np.squeeze(ssy)
+    ssy = np.atleast_1d(np.squeeze(ssy))
     if whitening is not None:
         ssy = np.matmul(whitening, ssy)
         ssx = np.matmul(ssx, np.transpose(whitening))  # decorrelated sim sums
@@ -294,7 +294,7 @@ def syn_likelihood_misspec(ssx, ssy, gamma, adjustment):
     """
     ssy = np.squeeze(ssy)
     sample_mean = ssx.mean(0)
-    sample_cov = np.cov(ssx, rowvar=False)
+    sample_cov = np.atleast_2d(np.cov(ssx, rowvar=False))
     std = np.sqrt(np.diag(sample_cov))
 
     if adjustment == "mean":
